@@ -376,7 +376,30 @@ void World::opMisuse(const Step &s)
                 accept = { error::VALUE_OVERFLOW };
                 f1 = fi;
                 dd_edge r(forests[fi].f);
-                long big = (s.a[2] & 1) ? (1L << 31) + long(s.a[3] % 1000) : -(1L << 31) - 1 - long(s.a[3] % 1000);
+                // the largest and smallest terminals are accepted and exact ...
+                {
+                    const long edge[2] = { (1L << 30) - 1, -(1L << 30) };
+                    for (long v : edge) {
+                        dd_edge ok(forests[fi].f);
+                        forests[fi].f->createConstant(rangeval(v), ok);
+                        minterm m(forests[fi].f);
+                        fillMinterm(forests[fi], m, 0, 0);
+                        rangeval rv; ok.evaluate(m, rv);
+                        if (long(rv) != v) {
+                            std::ostringstream o; o << "constant " << v << " (a legal terminal) evaluates to " << long(rv);
+                            failNow("I1", "construct", o.str());
+                            return;
+                        }
+                    }
+                }
+                // ... one step beyond them, and far beyond, is refused
+                long big;
+                switch (s.a[2] % 4) {
+                    case 0:  big = (1L << 31) + long(s.a[3] % 1000); break;
+                    case 1:  big = -(1L << 31) - 1 - long(s.a[3] % 1000); break;
+                    case 2:  big = (1L << 30); break;
+                    default: big = -(1L << 30) - 1; break;
+                }
                 forests[fi].f->createConstant(rangeval(big), r);
                 break;
             }
